@@ -3,7 +3,7 @@
 From stdpp Require Import gmap strings.
 From RecordUpdate Require Import RecordSet.
 Import RecordSetNotations.
-From EV Require Import Base.Str Model.Value Model.Keyspace Model.Reply Model.Prog Model.CmdList.
+From EV Require Import Base.Str Model.Value Model.Keyspace Model.Reply Model.Prog Model.CmdList Model.CmdGeneric Model.CmdString.
 Local Open Scope Z_scope.
 
 Record world := World {
@@ -15,8 +15,11 @@ Global Instance eta_world : Settable _ := settable! World <w_st; w_conns>.
 Definition init_world (now : Z) : world := {| w_st := init_state now; w_conns := ∅ |}.
 Definition conn_db (w : world) (c : Z) : Z := default 0 (w_conns w !! c).
 
+Definition first_some {A} (l : list (option A)) : option A :=
+  fold_right (fun o acc => match o with Some x => Some x | None => acc end) None l.
+
 Definition handler_of (name : string) : option (list string -> prog reply) :=
-  list_handler name.
+  first_some [list_handler name; generic_handler name; string_handler name].
 
 Definition exec_cmd (w : world) (c : Z) (argv : list string) : world * reply :=
   match argv with
